@@ -4,14 +4,21 @@ from hutil import S, unS, err
 
 MODEL = "C11"
 PROP_FILES = ["Props/C11.v"]
-RULE = ("(a) messages built from a grammar of nested named, inline and unknown tags, bare '<' '>', newlines, non-ASCII (incl. the "
-        "four code points that fold into a-z) plus a malformed stream (unbalanced, unknown colours), each formatted by a fresh ANSI "
-        "and a fresh plain formatter; (b) every style over 10 fg x 10 bg x 2^7 attribute sets (quick) / all 18 x 18 x 2^7 "
-        "(thorough) through the three routes (style set, add_style, per-call style); (c)+(d) programs of writes through the four "
-        "writing methods of both outputs inside nested set/increment indentation scopes at IO and single-output level (depth <= 4) "
-        "left normally or by an exception, on ANSI/plain/null formatters, ANSI and plain streams, plain outputs and section "
-        "outputs; non-trivial = a message with >= 1 recognised tag / a style with >= 1 code / a program with >= 1 scope and >= 1 "
-        "write; distinct by request")
+RULE = ("(a) messages built from a grammar of nested named, inline (also foreground + background + options together) and unknown "
+        "tags, bare '<' '>', newlines, non-ASCII (incl. the four code points that fold into a-z) plus a malformed stream (unbalanced, "
+        "unknown colours), each formatted by a fresh ANSI and a fresh plain formatter AND through IO.format(string, style=) / "
+        "Output.format / SectionOutput.format with the per-call style and IO / Output.remove_format; (b) every style over 10 fg x 10 "
+        "bg x 2^7 attribute sets (quick) / all 18 x 18 x 2^7 (thorough) through the three routes (style set, add_style, per-call "
+        "style; the per-call route also through the I/O); histories of per-call styles on one formatter; histories on ONE "
+        "decorating and ONE undecorated formatter: render, add_style, render again with format and remove_format, a style "
+        "registered a second time under the same tag (a tag is text before it is registered and markup with exactly the codes of "
+        "the style registered last afterwards); (c)+(d) programs of writes through the four writing methods of both outputs - "
+        "through the I/O's methods and through the outputs' own - inside nested set/increment indentation scopes at IO and "
+        "single-output level (depth <= 4) left normally, by an Exception or by a KeyboardInterrupt / SystemExit (a BaseException "
+        "only), with sections taken inside scopes (io.section(): the body runs on a section that starts with the indentation in "
+        "force), on ANSI/plain/null formatters, ANSI and plain streams, plain outputs and section outputs; texts include lines of "
+        "white space only (not empty: indented); non-trivial = a message with >= 1 recognised tag / a style with >= 1 code / a "
+        "history with an add_style / a program with >= 1 scope and >= 1 write; distinct by request")
 TRUSTED = ["pastel (external library) is modelled by hand in Model/Markup.v from its source; the model is compared with the "
            "installed pastel on every run through clikit's formatters"]
 ASSUMPTIONS = ["flags None, outputs not quiet (gating is C10); a section output is alone on its stream (stacking is C15)"]
@@ -45,10 +52,13 @@ def expected_codes(st):
 
 # ---- message grammar: returns (markup, plain or None when the expected plain text is not known) ----
 WORDS = ["a", "bc", " ", "x y", "\n", "l1\nl2", "é中", "", "1", "=", ";", "-", "/"]
-DIRTY = ["<", ">", "< ", "<<", "a<b", "</", "<1>", "< info>", "<info", "ı", "ſ"]
+DIRTY = ["<", ">", "< ", "<<", "a<b", "</", "<1>", "< info>", "<info", "ı", "ſ", "\\<", "a\\<b", "\\<info>", "\\"]
 NAMED = list(DEFAULT_TAGS)
 INLINE = ["fg=red", "bg=blue", "fg=green;bg=black", "options=bold", "options=bold,underline", "fg=cyan;options=italic,bold",
-          "FG=RED", "fg=white;", "opt=blink", "options=reverse;options=conceal"]
+          "FG=RED", "fg=white;", "opt=blink", "options=reverse;options=conceal",
+          # foreground, background and options together
+          "fg=red;bg=blue;options=bold", "fg=white;bg=black;options=underline,blink", "options=bold;bg=cyan;fg=yellow",
+          "bg=light_red;fg=default;options=italic,reverse,conceal"]
 UNKNOWN = ["foo", "x1", "infos", "bb", "options=nope", "fg", "a=;b", "K", "İnfo", "iſ"]
 
 
@@ -79,13 +89,16 @@ def gen_msg(rng, depth, dirty):
     return "".join(parts), "".join(plain)
 
 
+HM_BALANCED = ["<a>x</a>", "p<a>q</a>r", "<A>x</>", "<info>i</info><a>j</a>", "x", "<b><a>n</a></b>", "<a>l1\nl2</a>"]
 MALFORMED = ["<info>a", "a</info>", "<b><u>x</b></u>", "</b>x<info>y</b>", "<fg=nope>x</>", "<bg=nope>x", "<fg=red>x</fg=blue>",
              "<options=bold,italic>x</options=italic,bold>", "<b>x</u>", "</>", "</></>a", "<info>", "<b>a</>b</>c", "<info></b>",
              "<fg=red;fg=nope>x", "<opt=nope;fg=nope>x", "<b>\\<info>x</b>", "\\<info>x", "a\\<b>c</b>", "<b>x</b>\\", "\\", "\\<",
              "<b>a\\<c</b>", "<info>a</info><", "<b", "x<b>", "<b>x"]
 
 W_TEXTS = [("a", "a"), ("", ""), ("a\nb", "a\nb"), ("\n", "\n"), ("a\n\nb", "a\n\nb"), ("t\n", "t\n"), ("t\n\n", "t\n\n"), (" lead", " lead"),
-           ("<info>x</info>", "x"), ("<b>l1\nl2</b>", "l1\nl2"), ("<info>", ""), ("p<fg=red>q</>r", "pqr"), ("<foo>z", "<foo>z")]
+           ("<info>x</info>", "x"), ("<b>l1\nl2</b>", "l1\nl2"), ("<info>", ""), ("p<fg=red>q</>r", "pqr"), ("<foo>z", "<foo>z"),
+           # lines of white space only are NOT empty: they get the indentation too
+           (" ", " "), ("  \nx", "  \nx"), ("x\n \ny", "x\n \ny"), ("<b> </b>\n\t", " \n\t")]
 # texts on which a write raises ValueError.  Both fail before anything is pushed on the style stack: pastel keeps the styles a
 # message opened before its failing tag ('<b>x</u>' leaves bold on the stack for every later message), and the model does not carry
 # formatter state out of a failed call - such texts are outside the compared domain (DESIGN.md C11, Partial).  'x</u>' raises only
@@ -100,10 +113,13 @@ def gen_prog(rng, depth, bad):
         if r < 0.5 or depth <= 0:
             ti = rng.randrange(len(W_TEXTS))
             prog.append(["w", rng.randrange(2), rng.randrange(4), ti if not (bad and rng.random() < 0.1) else -1 - rng.randrange(len(W_BAD))])
-        elif r < 0.85:
+        elif r < 0.80:
             prog.append(["scope", rng.randrange(3), rng.randrange(2), rng.choice([0, 1, 2, 4, 4, 7, -1]), gen_prog(rng, depth - 1, bad)])
+        elif r < 0.86:
+            prog.append(["insec", gen_prog(rng, depth - 1, bad)])       # sub = io.section(); the body runs on sub
         elif r < 0.93:
-            prog.append(["raise"])
+            # left by an exception: an Exception, or one that is only a BaseException (KeyboardInterrupt, SystemExit)
+            prog.append(rng.choice([["raise"], ["raise"], ["raise", 1], ["raise", 2]]))
         else:
             prog.append(["try", gen_prog(rng, depth - 1, bad)])
     return prog
@@ -114,14 +130,18 @@ def all_progs_small():
     out = []
     scopes = [(lv, inc, n) for lv in range(3) for inc in range(2) for n in (2, 4)]
     wr = lambda t: ["w", t, 1, 0]
+    rs = [[], [["raise"]], [["raise", 1]]]          # left normally, by an Exception, by a KeyboardInterrupt
     for s1 in scopes:
-        for exc in (0, 1):
-            body = [wr(0), wr(1)] + ([["raise"]] if exc else [])
+        for exc in (0, 1, 2):
+            body = [wr(0), wr(1)] + rs[exc]
             out.append([["try", [["scope", s1[0], s1[1], s1[2], body]]], wr(0), wr(1)])
+            # a section taken INSIDE the scope starts with the indentation in force; the scope's end does not reach it
+            out.append([["try", [["scope", s1[0], s1[1], s1[2], [["insec", body]] + [wr(0), wr(1)]]]], wr(0), wr(1)])
+            out.append([["insec", [["try", [["scope", s1[0], s1[1], s1[2], body]]], wr(0), wr(1)]], wr(0), wr(1)])
             for s2 in scopes:
-                for exc2 in (0, 1):
-                    inner = [["scope", s2[0], s2[1], s2[2], [wr(0), wr(1)] + ([["raise"]] if exc2 else [])]]
-                    out.append([["try", [["scope", s1[0], s1[1], s1[2], [["try", inner], wr(0), wr(1)] + ([["raise"]] if exc else [])]]], wr(0), wr(1)])
+                for exc2 in ((0, 1, 2) if exc < 2 else (0, 2)):
+                    inner = [["scope", s2[0], s2[1], s2[2], [wr(0), wr(1)] + rs[exc2]]]
+                    out.append([["try", [["scope", s1[0], s1[1], s1[2], [["try", inner], wr(0), wr(1)] + rs[exc]]]], wr(0), wr(1)])
     return out
 
 
@@ -129,7 +149,7 @@ def gen(rng, tier, info):
     n_msg = {"quick": 6000, "thorough": 60000, "search": 1500}[tier]
     n_prog = {"quick": 6000, "thorough": 60000, "search": 1500}[tier]
     colors = COLORS18 if tier == "thorough" else COLORS10
-    cases = []
+    cases = [{"k": 4}]          # the writing methods the programs use are ALL the line / text writing methods reflection finds
     # (a) messages
     for m in MALFORMED:
         cases.append({"k": 0, "set": None, "added": [], "percall": None, "msgs": [m], "plain": [None], "malformed": True})
@@ -176,6 +196,27 @@ def gen(rng, tier, info):
                 st = sty(None, rng.choice(COLORS10), rng.choice(COLORS10), rng.randrange(128)) if rng.random() < 0.85 else None
             calls.append([rng.choice(["x", "a<b>b</b>c", "<info>i</info>", "p q", "<u>y</u>z"]), st])
         cases.append({"k": 2, "refine": i % 2, "calls": calls})
+    # histories on ONE decorating and ONE undecorated formatter: render, add_style, render again (format and remove_format),
+    # a style added a second time under the same tag
+    HM = HM_BALANCED
+    for fg in COLORS10[1:4]:
+        for at in (0, 1, 8 + 64):
+            st1, st2 = sty("a", fg, None, at), sty("a", "white", fg, at ^ 1)
+            for m in HM:
+                cases.append({"k": 3, "steps": [["f", m, None], ["r", m], ["a", st1], ["f", m, None], ["r", m], ["f", m, sty(None, "blue", None, 4)],
+                                                ["a", st2], ["f", m, None], ["r", m]]})
+    for i in range({"quick": 1500, "thorough": 15000, "search": 300}[tier]):
+        steps = []
+        for _ in range(rng.randint(3, 9)):
+            r = rng.random()
+            m = rng.choice(HM + ["<c>y</c>", "<a>x</c>", "<c>z", "a</a>"]) if rng.random() < 0.9 else gen_msg(rng, 2, False)[0]
+            if r < 0.45:
+                steps.append(["f", m, None if rng.random() < 0.7 else sty(None, rng.choice(COLORS10), rng.choice(COLORS10), rng.randrange(128))])
+            elif r < 0.7:
+                steps.append(["r", m])
+            else:
+                steps.append(["a", sty(rng.choice(["a", "c", "info", "b"]), rng.choice(COLORS10), rng.choice(COLORS10), rng.randrange(128))])
+        cases.append({"k": 3, "steps": steps})
     n_b = len(cases) - n_a
     # (c) + (d) programs
     confs = [(sa, fk, sec) for sa in (0, 1) for fk in (0, 1, 2, 3) for sec in (0, 1)]
@@ -187,7 +228,11 @@ def gen(rng, tier, info):
         for t in range(2):
             for m in range(4):
                 for ti in range(len(W_TEXTS)):
-                    cases.append({"k": 1, "conf": list(conf), "prog": [["w", t, m, ti], ["scope", 0, 0, 3, [["w", t, m, ti]]], ["w", t, m, ti]]})
+                    for via in (1, 0):       # through the IO's methods / through the methods of its outputs
+                        c = {"k": 1, "conf": list(conf), "prog": [["w", t, m, ti], ["scope", 0, 0, 3, [["w", t, m, ti]]], ["w", t, m, ti]]}
+                        if not via:
+                            c["via_io"] = False
+                        cases.append(c)
     # a write that fails on an invalid style, then a decorated write: the decoration must still be there
     for conf in confs:
         for t in range(2):
@@ -198,7 +243,10 @@ def gen(rng, tier, info):
                                       "prog": [["try", [["w", t, m, bad]]], ["w", t, m2, 8]]})
     n_c = len(cases) - n_a - n_b
     for i in range(n_prog):
-        cases.append({"k": 1, "conf": list(rng.choice(confs)), "prog": gen_prog(rng, 4, i % 10 == 9)})
+        c = {"k": 1, "conf": list(rng.choice(confs)), "prog": gen_prog(rng, 4, i % 10 == 9)}
+        if i % 3 == 2:
+            c["via_io"] = False
+        cases.append(c)
     info["exhaustive"] = True
     info["distribution"] = {"messages": n_a, "styles_x_routes": n_b, "program_skeletons_and_method_table": n_c, "random_programs": n_prog,
                             "colours": len(colors)}
@@ -229,25 +277,44 @@ def w_prog(p):
         elif s[0] == "scope":
             out.append([1, s[1], s[2], s[3], w_prog(s[4])])
         elif s[0] == "raise":
-            out.append([2])
+            out.append([2])             # (which exception it is makes no difference to a with-block: the model has one)
+        elif s[0] == "insec":
+            out.append([4, w_prog(s[1])])
         else:
             out.append([3, w_prog(s[1])])
     return out
 
 
+# every public member of an Output / IO class that puts its text on a stream at once (props/C10.py discover(): packages walked,
+# every member CALLED on recording streams).  overwrite / clear are section operations (C15), add_content records only.
+WRITERS = sorted(["write", "write_line", "write_raw", "write_line_raw", "error", "error_line", "error_raw", "error_line_raw",
+                  "overwrite", "clear", "add_content"])
+
+
 def wire(c):
+    if c["k"] == 4:
+        return [9]
     if c["k"] == 0:
         st = c["set"] if c["set"] is not None else default_set()
         return [0, [w_style(s)[0] for s in st], [w_style(s)[0] for s in c["added"]], w_style(c["percall"]), [S(m) for m in c["msgs"]]]
     if c["k"] == 2:
         return [2, [w_style(s)[0] for s in default_set()], [[S(m), w_style(st)] for m, st in c["calls"]]]
+    if c["k"] == 3:
+        return [3, [w_style(s)[0] for s in default_set()],
+                [[0, S(x[1]), w_style(x[2])] if x[0] == "f" else [1, S(x[1])] if x[0] == "r" else [2, w_style(x[1])[0]] for x in c["steps"]]]
     sa, fk, sec = c["conf"]
     return [1, sa, fk, sec, [w_style(s)[0] for s in default_set()], w_prog(c["prog"])]
 
 
 def describe(c):
+    if c["k"] == 4:
+        return "reflection: the public members of the Output / IO classes that write"
     if c["k"] == 0:
         return "formatters(style set=%r, add_style=%r).format(m, style=%r) for m in %r" % (c["set"] or "default", c["added"], c["percall"], c["msgs"])
+    if c["k"] == 3:
+        return "one AnsiFormatter() and one PlainFormatter(), each: " + "; ".join(
+            "format(%r, %r)" % (x[1], x[2]) if x[0] == "f" else "remove_format(%r)" % x[1] if x[0] == "r" else "add_style(%r)" % (x[1],)
+            for x in c["steps"])
     if c["k"] == 2:
         return "one AnsiFormatter(); " + "; ".join("format(%r, style=%r)" % (m, st) for m, st in c["calls"]) + (" (one Style object refined between the calls)" if c["refine"] else " (a new Style per call)")
     return "IO(stream ansi=%d, formatter=%s, section=%d): %r" % (c["conf"][0], ["Ansi", "Ansi(forced)", "Plain", "Null"][c["conf"][1]], c["conf"][2],
@@ -281,6 +348,10 @@ class Boom(Exception):
 def run_impl(c):
     from clikit.api.formatter import StyleSet
     from clikit.formatter import AnsiFormatter, PlainFormatter, NullFormatter
+    if c["k"] == 4:
+        from props import C10
+        found = C10.discover()
+        return [0, sorted(set(e["name"] for e in found["entries"] if e["writer"]))]
     if c["k"] == 0:
         st = c["set"] if c["set"] is not None else default_set()
 
@@ -299,7 +370,40 @@ def run_impl(c):
             r = [_res(lambda: mk(AnsiFormatter).format(m, pc())), _res(lambda: mk(AnsiFormatter).remove_format(m)),
                  _res(lambda: mk(PlainFormatter).format(m, pc())), _res(lambda: mk(PlainFormatter).remove_format(m))]
             r.append([0, S(SGR.sub("", unS(r[0][1])))] if r[0][0] == 0 else r[0])
+            # the same through an I/O and through an output: IO.format(string, style=) / Output.format(string, style),
+            # IO.remove_format / Output.remove_format hand the call to the formatter - with the per-call style
+            if not io_routes(c, len(out)):
+                out.append(r)
+                continue
+            from clikit.io import BufferedIO
+            r.append(_res(lambda: BufferedIO(formatter=mk(AnsiFormatter)).format(m, style=pc())))
+            r.append(_res(lambda: BufferedIO(formatter=mk(AnsiFormatter)).output.format(m, pc())))
+            r.append(_res(lambda: BufferedIO(formatter=mk(AnsiFormatter)).error_output.section().format(m, pc())))
+            r.append(_res(lambda: BufferedIO(formatter=mk(AnsiFormatter)).remove_format(m)))
+            r.append(_res(lambda: BufferedIO(formatter=mk(AnsiFormatter)).output.remove_format(m)))
             out.append(r)
+        return [0, out]
+    if c["k"] == 3:
+        fa, fp = AnsiFormatter(), PlainFormatter()
+        out = []
+        for x in c["steps"]:
+            pair = []
+            for f in (fa, fp):
+                if x[0] == "f":
+                    pair.append(_res(lambda: f.format(x[1], mk_style(x[2]) if x[2] is not None else None)))
+                elif x[0] == "r":
+                    pair.append(_res(lambda: f.remove_format(x[1])))
+                else:
+                    try:
+                        f.add_style(mk_style(x[1]))
+                        pair.append([0, []])
+                    except Exception as e:  # noqa
+                        pair.append(err(e))
+            out.append(pair)
+            if any(r[0] != 0 for r in pair):
+                # pastel keeps what a failing message pushed on its style stack, the model does not carry formatter state out
+                # of a failed call (DESIGN.md C11, Partial): the history is compared up to and including the first failure
+                break
         return [0, out]
     if c["k"] == 2:
         f = AnsiFormatter()
@@ -340,34 +444,67 @@ def run_impl(c):
     io = IO(Input(StringInputStream("")), Output(so, mkf()), Output(se, mkf()))
     if sec:
         io = io.section()
-    outs = [io.output, io.error_output]
     meths = [["write", "write_line", "write_raw", "write_line_raw"], ["error", "error_line", "error_raw", "error_line_raw"]]
 
-    def run(p, via_io):
+    # what a scope can be left by: an Exception, and exceptions that are only BaseExceptions
+    LEFT_BY = (Boom, ValueError, KeyboardInterrupt, SystemExit)
+
+    def run(p, via_io, io):
         for s in p:
             if s[0] == "w":
                 text = text_of(s[3])
                 if via_io:
                     getattr(io, meths[s[1]][s[2]])(text)
                 else:
-                    getattr(outs[s[1]], meths[0][s[2]])(text)
+                    getattr([io.output, io.error_output][s[1]], meths[0][s[2]])(text)
             elif s[0] == "scope":
                 obj = [io, io.output, io.error_output][s[1]]
                 with (obj.increment_indent(s[3]) if s[2] else obj.indent(s[3])):
-                    run(s[4], via_io)
+                    run(s[4], via_io, io)
             elif s[0] == "raise":
-                raise Boom()
+                raise [Boom, KeyboardInterrupt, SystemExit][s[1] if len(s) > 1 else 0]()
+            elif s[0] == "insec":
+                run(s[1], via_io, io.section())
             else:
                 try:
-                    run(s[1], via_io)
-                except (Boom, ValueError):
+                    run(s[1], via_io, io)
+                except LEFT_BY:
                     pass
     raised = 0
     try:
-        run(c["prog"], c.get("via_io", True))
-    except (Boom, ValueError):
+        run(c["prog"], c.get("via_io", True), io)
+    except LEFT_BY:
         raised = 1
     return [0, S(so.fetch()), S(se.fetch()), io.output._indent, io.error_output._indent, raised]
+
+
+def io_routes(c, i):
+    """is message i of a k = 0 case also rendered through IO / Output / SectionOutput?  (in the table of all styles: the message
+    that gets the style for the single call)"""
+    return not c.get("style") or i == 2
+
+
+def canon_impl(c, o):
+    if c["k"] == 4:
+        return [0, [S(x) for x in o[1]]]
+    return o
+
+
+def canon_model(c, o):
+    if c["k"] == 4:
+        return [0, [S(x) for x in WRITERS]]        # (the model has no entry for this request: the table is the expectation)
+    if c["k"] == 0 and o and o[0] == 0:
+        # IO.format / Output.format / SectionOutput.format with the per-call style and IO / Output.remove_format are the
+        # formatter's own format / remove_format
+        return [0, [r + ([r[0], r[0], r[0], r[1], r[1]] if io_routes(c, i) else []) for i, r in enumerate(o[1])]]
+    if c["k"] == 3 and o and o[0] == 0:
+        out = []
+        for pair in o[1]:
+            out.append(pair)
+            if any(r[0] != 0 for r in pair):
+                break
+        return [0, out]
+    return o
 
 
 # ---- oracle ----
@@ -381,9 +518,11 @@ def spec_prog(prog, conf):
     def plain_of(ti):
         return W_TEXTS[ti][1] if fk != 3 else W_TEXTS[ti][0]
 
-    def run(p, env):
+    def run(p, env, sec=sec):
         for s in p:
-            if s[0] == "w":
+            if s[0] == "insec":
+                run(s[1], env, 1)
+            elif s[0] == "w":
                 if s[3] < 0:
                     raise KeyError("bad text")
                 raw, plain = W_TEXTS[s[3]][0], plain_of(s[3])
@@ -400,12 +539,12 @@ def spec_prog(prog, conf):
                 for t in (0, 1):
                     if s[1] == 0 or s[1] == t + 1:
                         new[t] = env[t] + s[3] if s[2] else s[3]
-                run(s[4], new)
+                run(s[4], new, sec)
             elif s[0] == "raise":
                 raise Boom()
             else:
                 try:
-                    run(s[1], env)
+                    run(s[1], env, sec)
                 except Boom:
                     pass
     raised = 0
@@ -417,11 +556,21 @@ def spec_prog(prog, conf):
 
 
 def oracle(c, o):
+    if c["k"] == 4:
+        extra = [x for x in o[1] if x not in WRITERS]
+        return ("writing-method-outside-the-table:" + ",".join(extra)) if extra else None
     if c["k"] == 0:
         if o[0] != 0:
             return None if c.get("malformed") else "formatter-construction-failed"
         for m, plain, r in zip(c["msgs"], c["plain"], o[1]):
-            fa, ra, fp, rp, _ = r
+            fa, ra, fp, rp = r[:4]
+            # a style passed for a single call reaches the formatter through every format() there is
+            if len(r) == 5:
+                pass
+            elif r[5] != fa or r[6] != fa or r[7] != fa:
+                return "format-through-%s-differs-from-the-formatter" % ("io" if r[5] != fa else "output" if r[6] != fa else "section-output")
+            elif r[8] != ra or r[9] != ra:
+                return "remove-format-through-io-or-output-differs-from-the-formatter"
             if any(x[0] != 0 for x in (fa, ra, fp, rp)):
                 if not c.get("malformed") and plain is not None:
                     return "format-raised-on-balanced-message"
@@ -452,6 +601,43 @@ def oracle(c, o):
                     want = "\x1b[%sm" % ";".join(map(str, codes))
                     if sorted(unS(r[0][1]).split("m")[0][2:].split(";")) != sorted(map(str, codes)):
                         return "style-codes-wrong-route-percall"
+        return None
+    if c["k"] == 3:
+        # one formatter through a history: a tag is markup from the add_style on that registers it, with exactly the codes of
+        # the style registered LAST; before that it is text; the undecorated formatter shows the same text, no escape byte
+        reg = dict((t, expected_codes(st)) for t, st in ((x["tag"], x) for x in default_set()))
+        for x, (ra, rp) in zip(c["steps"], o[1]):
+            if x[0] == "a":
+                if ra[0] == 0 and rp[0] == 0:
+                    reg[x[1]["tag"]] = expected_codes(x[1])
+                elif ra[0] == 0 or rp[0] == 0:
+                    return "add-style-accepted-by-one-formatter-only"
+                continue
+            if ra[0] != 0 or rp[0] != 0:
+                # (an unbalanced message may raise, and need not raise alike: a per-call style is on the decorating
+                # formatter's stack only)
+                if x[1] in HM_BALANCED:
+                    return "format-raised-on-balanced-message"
+                break
+            ta, tp = unS(ra[1]), unS(rp[1])
+            if "\x1b" in tp:
+                return "plain-emits-escape"
+            if SGR.sub("", ta) != tp:
+                return "ansi-stripped-differs-from-plain"
+            if x[1] in ("<a>x</a>", "<c>y</c>"):
+                tag = x[1][1]
+                if tag in reg:
+                    if tp not in ("x", "y"):
+                        return "markup-of-a-registered-style-shown"
+                    if x[0] == "f" and x[2] is None:
+                        codes = reg[tag]
+                        want = ("\x1b[%sm%s\x1b[0m" % (";".join(map(str, codes)), tp)) if codes else tp
+                        if sorted(SGR.findall(ta)[0][2:-1].split(";")) != sorted(map(str, codes)) if codes and SGR.findall(ta) else ta != want:
+                            return "style-codes-wrong-route-added-later"
+                elif tp != x[1]:
+                    return "unregistered-tag-not-shown-as-text"
+            if x[0] == "r" and ta != tp:
+                return "remove-format-differs-between-formatters"
         return None
     if c["k"] == 2:
         for (m, st), r in zip(c["calls"], o[1]):
@@ -498,6 +684,8 @@ def oracle(c, o):
 
 
 def nontrivial_key(c, o):
+    if c["k"] == 4:
+        return None
     if c["k"] == 0:
         if c.get("style"):
             return ("s", c["percall"]["fg"], c["percall"]["bg"], c["percall"]["attrs"]) if (c["percall"]["fg"] or c["percall"]["bg"] or c["percall"]["attrs"]) else None
@@ -506,6 +694,8 @@ def nontrivial_key(c, o):
         return None
     if c["k"] == 2:
         return ("h", repr(c["calls"]), c["refine"])
+    if c["k"] == 3:
+        return ("h3", repr(c["steps"])) if any(x[0] == "a" for x in c["steps"]) else None
     flat = repr(c["prog"])
     if "scope" in flat and "'w'" in flat:
         return ("p", tuple(c["conf"]), flat)
